@@ -59,6 +59,20 @@ def check_case(ctx, case):
             want = "<json.dumps failed: %r>" % (e,)
         if j[0] != "ok" or j[1] != want:
             ctx.violation("json_dump_differs", case, {"observed": short(j[1] if j[0] == "ok" else j, 300), "expected": short(want, 300)})
+        # the same calls on ONE parser object, in both orders: a list of entity dicts stays one, the JSON text stays its exact encoding
+        n = ctx.obs["json_dump_compared"]
+        if n % 3 == 0:
+            from vf.run import run_history
+            for order in ((True, False, True), (False, True, False)):
+                h = run_history(ddl, ctor, [dict(kw, **({"json_dump": True} if jd else {})) for jd in order])
+                ctx.evaluated(3)
+                ctx.obs["same_object_histories"] += 1
+                for jd, r in zip(order, h):
+                    wanted = want if jd else res
+                    if r[0] != "ok" or r[1] != wanted or type(r[1]) is not type(wanted):
+                        ctx.violation("shape_depends_on_earlier_call_on_same_object", case, {"call": "run(json_dump=%s)" % jd, "order": list(order),
+                                                                                           "observed": short(r, 200), "fresh_object": short(wanted, 200)})
+                        break
 
 
 def gen_sources(ctx, rng):
